@@ -46,8 +46,8 @@ type RelMapFile struct {
 //	pad (4 bytes)
 //
 // Total size: 512 bytes.  PostgreSQL 16 widened the array to mappings[64] and dropped the
-// padding: crc at offset 520, total size 524 bytes (the magic is unchanged).  PostgreSQL reads
-// exactly sizeof(RelMapFile) bytes, so the layout is told by the file size.
+// padding: crc at offset 520, total size 524 bytes (the magic is unchanged).  The layout is told
+// by relMapIsV16, whatever follows the structure in the buffer.
 func ParseRelMapFile(data []byte) (*RelMapFile, error) {
 	if len(data) < 512 {
 		return nil, fmt.Errorf("relmap file too small: %d bytes (expected 512)", len(data))
@@ -61,14 +61,15 @@ func ParseRelMapFile(data []byte) (*RelMapFile, error) {
 		return nil, fmt.Errorf("invalid relmap magic: 0x%X (expected 0x%X)", rm.Magic, RelMapMagic)
 	}
 
-	// A 524-byte file is the PostgreSQL 16 layout, anything else the 512-byte one
-	maxMappings := int32(RelMapMaxMappings)
-	if len(data) == RelMapFileSizeV16 {
-		maxMappings = RelMapMaxMappingsV16
-	}
-
 	// Read number of mappings
 	rm.NumMappings = int32(binary.LittleEndian.Uint32(data[4:8]))
+
+	// The two layouts differ in the size of the mapping array, hence in where the CRC is
+	maxMappings := int32(RelMapMaxMappings)
+	isV16 := relMapIsV16(data, rm.NumMappings)
+	if isV16 {
+		maxMappings = RelMapMaxMappingsV16
+	}
 	if rm.NumMappings < 0 || rm.NumMappings > maxMappings {
 		return nil, fmt.Errorf("invalid number of mappings: %d", rm.NumMappings)
 	}
@@ -88,13 +89,41 @@ func ParseRelMapFile(data []byte) (*RelMapFile, error) {
 		offset += 8
 	}
 
-	// CRC follows the mapping array: offset 504 (after 62 mappings), 520 in the PostgreSQL 16 layout
-	crcOffset := 8 + int(maxMappings)*8
-	if len(data) >= crcOffset+4 {
-		rm.CRC = binary.LittleEndian.Uint32(data[crcOffset : crcOffset+4])
+	// CRC follows the mapping array: offset 520 in the PostgreSQL 16 layout, 504 (after 62 mappings) before
+	if isV16 {
+		rm.CRC = binary.LittleEndian.Uint32(data[520:524])
+	} else {
+		rm.CRC = binary.LittleEndian.Uint32(data[504:508])
 	}
 
 	return rm, nil
+}
+
+// relMapIsV16 tells the PostgreSQL 16 layout (64 mappings, CRC at 520, 524 bytes) from the one of
+// PostgreSQL 15 and earlier (62 mappings, CRC at 504, 512 bytes).  Both start with the same magic,
+// so the image itself is asked: the stored CRC-32C covers the bytes before it, and on an intact
+// file it verifies at the offset of the layout the file was written in.  Bytes that follow the
+// structure (a file read into a larger buffer, a padded copy) play no part in that.  More than 62
+// mappings fit the 16 layout only.  When no CRC verifies (a damaged file) the size decides, as
+// PostgreSQL writes exactly sizeof(RelMapFile) bytes.  len(data) >= 512 is the caller's check.
+func relMapIsV16(data []byte, numMappings int32) bool {
+	if len(data) < RelMapFileSizeV16 {
+		return false
+	}
+	if numMappings > RelMapMaxMappings {
+		return true
+	}
+	bodyV16 := data[0:520]
+	crcV16 := binary.LittleEndian.Uint32(data[520:524])
+	if verifyCRC32C(bodyV16, crcV16) {
+		return true
+	}
+	body := data[0:504]
+	crc := binary.LittleEndian.Uint32(data[504:508])
+	if verifyCRC32C(body, crc) {
+		return false
+	}
+	return len(data) == RelMapFileSizeV16
 }
 
 // ReadGlobalRelMap reads the global pg_filenode.map
